@@ -3,6 +3,7 @@ import Zstd.Driver.Headers
 import Zstd.Driver.Window
 import Zstd.Driver.Spec
 import Zstd.Driver.Dec
+import Zstd.Driver.Huf
 import Zstd.Driver.BitIO
 import Zstd.Driver.Fse
 import Zstd.Driver.Matcher
@@ -15,6 +16,7 @@ open Zstd Zstd.Driver
 
 structure St where
   dec : Dec.St := Dec.init
+  huf : Driver.Huf.Cache := none
   matcher : Zstd.Driver.Matcher.State := {}
 
 def step (st : St) (line : String) : St × String :=
@@ -26,6 +28,7 @@ def step (st : St) (line : String) : St × String :=
   | "matcher" :: cmd :: args => let (m, o) := Matcher.step st.matcher cmd args; ({ st with matcher := m }, o)
   | "bits" :: cmd :: args => (st, Driver.BitIO.handle cmd args)
   | "fse" :: cmd :: args => (st, Driver.Fse.handle cmd args)
+  | "huf" :: cmd :: args => let (c, o) := Driver.Huf.step st.huf cmd args; ({ st with huf := c }, o)
   | "dec" :: args => let (s2, o) := Dec.step st.dec args; ({ st with dec := s2 }, o)
   | _ => (st, badOp)
 
